@@ -41,8 +41,8 @@ TIES = {  # tie lemma -> the Go function(s) it ties (lean/GeomV/C18/Tie.lean)
 }
 SEQ = ["bigStep_step", "finishW_st", "runPass_seq"]
 DUP = ["C18_duplicates", "C18_duplicates_schedule_dependent", "closedDB_sound", "closed_of_closedD", "closedD_of_closed"]
-SRC = ["C18_provided_keeps_src", "C18_check_src", "C18_filter_src"]
-LOOP = ["procSeq_flag", "passBody_spec", "whileS_loop", "tie_worker", "worker_step", "keepShapeS_bounds", "keepShapeS_tags", "keepShapeS_all"]
+SRC = ["C18_provided_keeps_src", "C18_check_src", "C18_filter_src", "C18_filter_provided_src", "C18_extract_seq_src"]
+LOOP = ["procSeq_flag", "passBody_spec", "whileS_loop", "tie_worker", "worker_step", "keepShapeS_bounds", "keepShapeS_tags", "keepShapeS_all", "whileS_loopG", "extract_seq_core", "copyInv_node", "copyInv_way", "copyInv_rel"]
 
 
 def t1(chk, gobin):
